@@ -85,6 +85,7 @@ func caseVariants(w string) []string {
 // C04 decides the keyword/month/canonical-print table clauses of the date
 // grammar.
 func C04(p *load.Prog, r *oblig.Run) {
+	defer c04PatternFirst(p, r)
 	r.Explanation = "Static table agreement. The checker folds (constant-propagates through fmt.Sprintf/strings.Replace/regexp.QuoteMeta and helper functions) the constant patterns of the " +
 		"regexps used by parseDateParts and NewDateRangeWithString, parses them with regexp/syntax, and decides: (R04.a) the language of the constraint capture group, enumerated from the regexp AST, " +
 		"is exactly the documented keyword set in every letter case - in particular it contains no wildcard - and the constant-folded DateConstraintFromString maps every member to the class it is documented under; " +
